@@ -47,7 +47,9 @@ class LiveRender:
         """
         if self._shape is not None:
             _, height = self._shape
-            return Control("\r" + "\x1b[1A\x1b[2K" * height)
+            # called after the display has been terminated with a new line: even an empty
+            # region leaves the cursor one row down
+            return Control("\r" + "\x1b[1A\x1b[2K" * max(1, height))
         return Control("")
 
     def __rich_console__(
